@@ -45,7 +45,8 @@ Definition upper (b : byte) : byte := if (97 <=? b)%N && (b <=? 122)%N then (b -
 (* `lower` is C02's *)
 
 (* caseName for names whose bytes are below 0x80 or have no case (strings.ToLower / ToUpper are the
-   identity on those); names with cased letters above 0x7f are outside the model *)
+   identity on those); names with cased letters above 0x7f are outside the model.  :capitalize leaves the
+   empty name alone (repo_fixes C03-2; it used to index the first rune of the empty name) *)
 Definition case_name (c : pcase) (name : list byte) : list byte :=
   match c with
   | CUp => map upper name
@@ -161,170 +162,25 @@ Definition special_table : list (N * list byte) :=
    (10%N, [78; 101; 119; 108; 105; 110; 101]%N);            (* Newline *)
    (13%N, [82; 101; 116; 117; 114; 110]%N);                 (* Return *)
    (9%N, [84; 97; 98]%N);                                   (* Tab *)
-   (127%N, [82; 117; 98; 111; 117; 116]%N)].                (* Rubout *)
+   (127%N, [82; 117; 98; 111; 117; 116]%N);                 (* Rubout *)
+   (0%N, [78; 117; 108; 108]%N)].                           (* Null: repo_fixes C03-12 *)
 Definition special_char (r : N) : option (list byte) :=
   match find (fun e => (fst e =? r)%N) special_table with Some e => Some (snd e) | None => None end.
-(* Character.Append (after #\) and Character.Readably *)
+(* Character.Append (after #\) and Character.Readably: control characters and the ASCII characters the reader's
+   character mode does not take as part of the token (parentheses, quotes, semicolon ...) are written by code
+   (repo_fixes C03-13) *)
+Definition char_by_code (r : N) : bool :=
+  (r <? 32)%N || ((r <? 128)%N && match act T03 MChar r with ASkip => false | _ => true end).
 Definition char_name (r : N) : list byte :=
   match special_char r with
   | Some s => s
-  | None => if (r <? 32)%N then [117; 48; 48; hexd (r / 16); hexd (r mod 16)]%N else utf8 r
+  | None => if char_by_code r then [117; 48; 48; hexd (r / 16); hexd (r mod 16)]%N else utf8 r
   end.
 Definition char_text (c : pcfg) (r : N) : list byte :=
   if p_escape c then [35; 92]%N ++ char_name r else utf8 r.
 
 (* ------------------------------------------------------------------------------------------ *)
-(* symbols                                                                                       *)
-(* ------------------------------------------------------------------------------------------ *)
-Definition need_pipe (b : byte) : bool := (nth (N.to_nat b) needpipe_table 46 =? 120)%N.
-(* Symbol.Readably *)
-Definition symbol_text (c : pcfg) (name : list byte) : list byte :=
-  match name with
-  | [] => [124; 124]%N
-  | 58%N :: _ => case_name (p_case c) name
-  | _ => if existsb need_pipe name then [124%N] ++ case_name (p_case c) name ++ [124%N] else case_name (p_case c) name
-  end.
-
-(* ------------------------------------------------------------------------------------------ *)
-(* the printer                                                                                   *)
-(* ------------------------------------------------------------------------------------------ *)
-Definition nil_text (c : pcfg) : list byte := case_name (p_case c) [110; 105; 108]%N.
-
-Definition is_atom (x : obj) : bool :=
-  match x with OList _ | ODot _ _ | OVec _ | OArr _ _ => false | _ => true end.
-(* the text of an object that is not a list, vector or array: Printer.Append, the Readble case *)
-Definition atom_text (c : pcfg) (x : obj) : list byte :=
-  match x with
-  | ONil => nil_text c
-  | OTrue => [116%N]
-  | OInt _ z => integer_text c z
-  | ORat n d => ratio_text c n d
-  | OFlt _ txt => txt
-  | OStr bs => string_text c bs
-  | OChr r => char_text c r
-  | OSym s => symbol_text c s
-  | OOther tag => tag
-  | _ => []
-  end.
-Definition join_sp (ts : list (list byte)) : list byte :=
-  match ts with [] => [] | t :: r => t ++ concat (map (fun u => 32%N :: u) r) end.
-
-(* an array is kept in the shape Array.AsList gives the printer: rows of rows ... of elements;
-   OArr rank rows.  Its dimensions, read off the first elements (as calcAndSet does) *)
-Fixpoint arr_dims (rank : nat) (rows : list obj) : list nat :=
-  match rank with
-  | O => []
-  | S r => length rows :: match rows with OList sub :: _ => arr_dims r sub | _ => [] end
-  end.
-(* the prefix of an array: '#' rank 'A', the rank printed through Printer.Append (base and radix apply) *)
-Definition array_prefix (c : pcfg) (rank : nat) : list byte :=
-  [35%N] ++ integer_text c (Z.of_nat rank) ++ [65%N].
-Definition novec_text (c : pcfg) (n : nat) : list byte :=      (* #<(VECTOR n)> *)
-  [35; 60; 40; 86; 69; 67; 84; 79; 82; 32]%N ++ integer_text c (Z.of_nat n) ++ [41; 62]%N.
-Definition noarr_text (c : pcfg) (dims : list nat) : list byte :=   (* #<(ARRAY T (d ...))> *)
-  [35; 60; 40; 65; 82; 82; 65; 89; 32; 84; 32; 40]%N ++ join_sp (map (fun d => integer_text c (Z.of_nat d)) dims) ++ [41; 41; 62]%N.
-
-(* --- *print-pretty* nil: the loop of Printer.Append --- *)
-Fixpoint flat (c : pcfg) (x : obj) : list byte :=
-  let fix flats (l : list obj) : list (list byte) :=
-    match l with [] => [] | e :: l' => flat c e :: flats l' end in
-  match x with
-  | OList [] => nil_text c
-  | OList xs => [40%N] ++ join_sp (flats xs) ++ [41%N]
-  | ODot xs tl => [40%N] ++ join_sp (flats xs ++ [[46; 32]%N ++ flat c tl]) ++ [41%N]
-  | OVec xs => if p_array c then [35; 40]%N ++ join_sp (flats xs) ++ [41%N] else novec_text c (length xs)
-  | OArr rank rows => if p_array c then array_prefix c rank ++ [40%N] ++ join_sp (flats rows) ++ [41%N]
-                      else noarr_text c (arr_dims rank rows)
-  | _ => atom_text c x
-  end.
-
-(* --- *print-pretty* t: createTree / appendTree --- *)
-Inductive node := Node (buf : list byte) (elems : list node) (size : nat).
-Definition nsize (n : node) : nat := match n with Node _ _ s => s end.
-Definition sum_sizes (l : list node) : nat := fold_right (fun n a => nsize n + a) 0%nat l.
-Definition leaf_node (b : list byte) : node := Node b [] (length b).
-
-(* the loop over elements 1.. of appendTree; f is appendTree itself *)
-Definition tree_loop (f : node -> nat -> nat -> list byte) (margin : N) (off closes : nat) :=
-  fix loop (l : list node) (pos : nat) : list byte :=
-    match l with
-    | [] => []
-    | e :: l' =>
-        let t := match l' with [] => closes + 1 | _ => 0 end in
-        if (N.of_nat (pos + nsize e + t + 1) <=? margin)%N
-        then [32%N] ++ f e 0 t ++ loop l' (pos + nsize e + t + 1)
-        else [10%N] ++ repeat 32%N off ++ f e off t ++ loop l' (off + nsize e + 1)
-    end.
-Fixpoint append_tree (margin : N) (n : node) (offset closes : nat) : list byte :=
-  match n with
-  | Node (b :: buf) _ _ => b :: buf
-  | Node [] elems _ =>
-      [40%N] ++
-      (match elems with
-       | [] => []
-       | [e] => append_tree margin e (offset + 1) (closes + 1)
-       | e0 :: ((e1 :: _) as rest) =>
-           let t := match rest with [_] => closes + 1 | _ => 0 end in
-           let off := if (N.of_nat (offset + 1 + nsize e0 + nsize e1 + t + 1) <=? margin)%N
-                      then offset + 1 + nsize e0 + 1 else offset + 1 in
-           append_tree margin e0 off 0 ++ tree_loop (append_tree margin) margin off closes rest (offset + 1 + nsize e0)
-       end) ++ [41%N]
-  end.
-Definition node_text (c : pcfg) (n : node) : list byte := append_tree (p_margin c) n 0 0.
-
-Definition dot_node : node := Node [46%N] [] 1.
-Fixpoint ptree (c : pcfg) (x : obj) : node :=
-  let fix ptrees (l : list obj) : list node :=
-    match l with [] => [] | e :: l' => ptree c e :: ptrees l' end in
-  match x with
-  | OList [] => Node [] [] 2
-  | OList xs => let es := ptrees xs in Node [] es (1 + length xs + sum_sizes es)
-  | ODot xs tl => let es := ptrees xs in let t := ptree c tl in
-                  Node [] (es ++ [dot_node; t]) (1 + (length xs + 1) + sum_sizes es + nsize t)
-  | OSym s => leaf_node (case_name (p_case c) s)
-  | OVec xs =>
-      leaf_node (if p_array c then
-                   match xs with
-                   | [] => [35; 40; 41]%N
-                   | _ => let es := ptrees xs in [35%N] ++ node_text c (Node [] es (1 + length xs + sum_sizes es))
-                   end
-                 else novec_text c (length xs))
-  | OArr rank rows =>
-      leaf_node (if p_array c then
-                   array_prefix c rank ++
-                   match rows with
-                   | [] => nil_text c
-                   | _ => let es := ptrees rows in node_text c (Node [] es (1 + length rows + sum_sizes es))
-                   end
-                 else noarr_text c (arr_dims rank rows))
-  | _ => leaf_node (atom_text c x)
-  end.
-Definition pretty (c : pcfg) (x : obj) : list byte :=
-  match x with
-  | OSym _ => atom_text c x
-  | OList [] => nil_text c
-  | _ => node_text c (ptree c x)
-  end.
-
-(* Printer.Append at level 0 *)
-Definition print (c : pcfg) (x : obj) : list byte := if p_pretty c then pretty c x else flat c x.
-
-(* where the Go code panics instead of printing: createTree calls caseName on the empty name of a
-   symbol inside a list, and :capitalize indexes its first rune *)
-Fixpoint has_empty_sym (x : obj) : bool :=
-  let fix any (l : list obj) : bool := match l with [] => false | e :: l' => has_empty_sym e || any l' end in
-  match x with
-  | OSym [] => true
-  | OList xs | OVec xs | OArr _ xs => any xs
-  | ODot xs tl => any xs || has_empty_sym tl
-  | _ => false
-  end.
-Definition print_faults (c : pcfg) (x : obj) : bool :=
-  p_pretty c && match p_case c with CCap => true | _ => false end && negb (is_atom x) && has_empty_sym x &&
-  match x with OVec _ | OArr _ _ => p_array c | _ => true end.
-
-(* ------------------------------------------------------------------------------------------ *)
-(* the reader: token resolution on top of C02's byte machine                                     *)
+(* the reader: token resolution (resolveToken), also consulted by the printer of symbols         *)
 (* ------------------------------------------------------------------------------------------ *)
 Definition is_digit (b : byte) : bool := (48 <=? b)%N && (b <=? 57)%N.
 Definition strip_sign (bs : list byte) : list byte := match bs with 43%N :: r | 45%N :: r => r | _ => bs end.
@@ -392,34 +248,203 @@ Definition resolve_token (tok : list byte) : obj :=
   let buf := map lower tok in
   if starts_with_at buf then OSym tok else resolve_buf tok buf.
 
+(* ------------------------------------------------------------------------------------------ *)
+(* symbols                                                                                       *)
+(* ------------------------------------------------------------------------------------------ *)
+Definition need_pipe (b : byte) : bool := (nth (N.to_nat b) needpipe_table 46 =? 120)%N.
+(* numberLike (code.go): the regular expressions resolveToken tries, with the default read base *)
+Definition numeric_like (buf : list byte) : bool :=
+  int_rx buf || float_rx None buf || float_rx (Some 101%N) buf || float_rx (Some 100%N) buf ||
+  float_rx (Some 115%N) buf || float_rx (Some 102%N) buf || float_rx (Some 108%N) buf || ratio_rx buf.
+(* Symbol.needPipes (repo_fixes C03-3, C03-4): a byte needPipeMap flags - except an & in first place, which starts a
+   token (&rest) but is not accepted inside one -, or a name beginning with a sign or a digit whose lower-cased
+   spelling is that of a number, or the name of the dotted-pair marker, or nil spelled in any case, or a name beginning
+   with @ (the reader tries such a token as a time first) *)
+Definition numeric_first (b : byte) : bool := is_digit b || (b =? 43)%N || (b =? 45)%N.
+Definition flagged (name : list byte) : bool :=
+  match name with
+  | b :: r => (need_pipe b && negb (b =? 38)%N) || existsb need_pipe r
+  | [] => false
+  end.
+Definition need_pipes (name : list byte) : bool :=
+  flagged name ||
+  match name with b :: _ => numeric_first b && numeric_like (map lower name) | [] => false end ||
+  match name with [46%N] => true | _ => false end ||          (* the lone dot: repo_fixes C03-9 *)
+  is_nil_tok name ||                                           (* nil in any case: repo_fixes C03-10 *)
+  match name with 64%N :: _ => true | _ => false end.          (* @...: could be read as a time, repo_fixes C03-11 *)
+(* between bars (repo_fixes C03-5): | and \ get a backslash, control bytes other than tab, newline and return
+   are written \u00XX *)
+Definition pesc_byte (b : byte) : list byte :=
+  if (b =? 124)%N || (b =? 92)%N then [92%N; b]
+  else if (b <? 32)%N && negb ((b =? 9)%N || (b =? 10)%N || (b =? 13)%N) then [92; 117; 48; 48; hexd (b / 16); hexd (b mod 16)]%N
+  else [b].
+Definition pesc (bs : list byte) : list byte := concat (map pesc_byte bs).
+(* Symbol.Readably; a keyword follows the same rule as every other symbol (repo_fixes C03-6) *)
+Definition symbol_text (c : pcfg) (name : list byte) : list byte :=
+  match name with
+  | [] => [124; 124]%N
+  | _ => if need_pipes name then [124%N] ++ pesc (case_name (p_case c) name) ++ [124%N] else case_name (p_case c) name
+  end.
+
+(* ------------------------------------------------------------------------------------------ *)
+(* the printer                                                                                   *)
+(* ------------------------------------------------------------------------------------------ *)
+Definition nil_text (c : pcfg) : list byte := case_name (p_case c) [110; 105; 108]%N.
+
+Definition is_atom (x : obj) : bool :=
+  match x with OList _ | ODot _ _ | OVec _ | OArr _ _ => false | _ => true end.
+(* the text of an object that is not a list, vector or array: Printer.Append, the Readble case *)
+Definition atom_text (c : pcfg) (x : obj) : list byte :=
+  match x with
+  | ONil => nil_text c
+  | OTrue => [116%N]
+  | OInt _ z => integer_text c z
+  | ORat n d => ratio_text c n d
+  | OFlt _ txt => txt
+  | OStr bs => string_text c bs
+  | OChr r => char_text c r
+  | OSym s => symbol_text c s
+  | OOther tag => tag
+  | _ => []
+  end.
+Definition join_sp (ts : list (list byte)) : list byte :=
+  match ts with [] => [] | t :: r => t ++ concat (map (fun u => 32%N :: u) r) end.
+
+(* an array is kept in the shape Array.AsList gives the printer: rows of rows ... of elements;
+   OArr rank rows.  Its dimensions, read off the first elements (as calcAndSet does) *)
+Fixpoint arr_dims (rank : nat) (rows : list obj) : list nat :=
+  match rank with
+  | O => []
+  | S r => length rows :: match rows with OList sub :: _ => arr_dims r sub | _ => [] end
+  end.
+(* the prefix of an array: '#' rank 'A', the rank in decimal whatever the base and radix (repo_fixes C03-14; it
+   used to go through Printer.Append: #2.A, ##b10A) *)
+Definition array_prefix (c : pcfg) (rank : nat) : list byte :=
+  [35%N] ++ to_digits 10 (N.of_nat rank) ++ [65%N].
+Definition novec_text (c : pcfg) (n : nat) : list byte :=      (* #<(VECTOR n)> *)
+  [35; 60; 40; 86; 69; 67; 84; 79; 82; 32]%N ++ integer_text c (Z.of_nat n) ++ [41; 62]%N.
+Definition noarr_text (c : pcfg) (dims : list nat) : list byte :=   (* #<(ARRAY T (d ...))> *)
+  [35; 60; 40; 65; 82; 82; 65; 89; 32; 84; 32; 40]%N ++ join_sp (map (fun d => integer_text c (Z.of_nat d)) dims) ++ [41; 41; 62]%N.
+
+(* --- *print-pretty* nil: the loop of Printer.Append --- *)
+Fixpoint flat (c : pcfg) (x : obj) : list byte :=
+  let fix flats (l : list obj) : list (list byte) :=
+    match l with [] => [] | e :: l' => flat c e :: flats l' end in
+  match x with
+  | OList [] => nil_text c
+  | OList xs => [40%N] ++ join_sp (flats xs) ++ [41%N]
+  | ODot xs tl => [40%N] ++ join_sp (flats xs ++ [[46; 32]%N ++ flat c tl]) ++ [41%N]
+  | OVec xs => if p_array c then [35; 40]%N ++ join_sp (flats xs) ++ [41%N] else novec_text c (length xs)
+  | OArr rank rows => if p_array c then array_prefix c rank ++ [40%N] ++ join_sp (flats rows) ++ [41%N]
+                      else noarr_text c (arr_dims rank rows)
+  | _ => atom_text c x
+  end.
+
+(* --- *print-pretty* t: createTree / appendTree --- *)
+Inductive node := Node (buf : list byte) (elems : list node) (size : nat).
+Definition nsize (n : node) : nat := match n with Node _ _ s => s end.
+Definition sum_sizes (l : list node) : nat := fold_right (fun n a => nsize n + a) 0%nat l.
+Definition leaf_node (b : list byte) : node := Node b [] (length b).
+
+(* the loop over elements 1.. of appendTree; f is appendTree itself *)
+Definition tree_loop (f : node -> nat -> nat -> list byte) (margin : N) (off closes : nat) :=
+  fix loop (l : list node) (pos : nat) : list byte :=
+    match l with
+    | [] => []
+    | e :: l' =>
+        let t := match l' with [] => closes + 1 | _ => 0 end in
+        if (N.of_nat (pos + nsize e + t + 1) <=? margin)%N
+        then [32%N] ++ f e 0 t ++ loop l' (pos + nsize e + t + 1)
+        else [10%N] ++ repeat 32%N off ++ f e off t ++ loop l' (off + nsize e + 1)
+    end.
+Fixpoint append_tree (margin : N) (n : node) (offset closes : nat) : list byte :=
+  match n with
+  | Node (b :: buf) _ _ => b :: buf
+  | Node [] elems _ =>
+      [40%N] ++
+      (match elems with
+       | [] => []
+       | [e] => append_tree margin e (offset + 1) (closes + 1)
+       | e0 :: ((e1 :: _) as rest) =>
+           let t := match rest with [_] => closes + 1 | _ => 0 end in
+           let off := if (N.of_nat (offset + 1 + nsize e0 + nsize e1 + t + 1) <=? margin)%N
+                      then offset + 1 + nsize e0 + 1 else offset + 1 in
+           append_tree margin e0 off 0 ++ tree_loop (append_tree margin) margin off closes rest (offset + 1 + nsize e0)
+       end) ++ [41%N]
+  end.
+Definition node_text (c : pcfg) (n : node) : list byte := append_tree (p_margin c) n 0 0.
+
+Definition dot_node : node := Node [46%N] [] 1.
+(* createTree: a symbol inside a list is a leaf holding what Symbol.Readably writes, like every other atom
+   (repo_fixes C03-4; it used to be caseName alone, without the bars) *)
+Fixpoint ptree (c : pcfg) (x : obj) : node :=
+  let fix ptrees (l : list obj) : list node :=
+    match l with [] => [] | e :: l' => ptree c e :: ptrees l' end in
+  match x with
+  | OList [] => Node [] [] 2
+  | OList xs => let es := ptrees xs in Node [] es (1 + length xs + sum_sizes es)
+  | ODot xs tl => let es := ptrees xs in let t := ptree c tl in
+                  Node [] (es ++ [dot_node; t]) (1 + (length xs + 1) + sum_sizes es + nsize t)
+  | OVec xs =>
+      leaf_node (if p_array c then
+                   match xs with
+                   | [] => [35; 40; 41]%N
+                   | _ => let es := ptrees xs in [35%N] ++ node_text c (Node [] es (1 + length xs + sum_sizes es))
+                   end
+                 else novec_text c (length xs))
+  | OArr rank rows =>
+      leaf_node (if p_array c then
+                   array_prefix c rank ++
+                   match rows with
+                   | [] => nil_text c
+                   | _ => let es := ptrees rows in node_text c (Node [] es (1 + length rows + sum_sizes es))
+                   end
+                 else noarr_text c (arr_dims rank rows))
+  | _ => leaf_node (atom_text c x)
+  end.
+Definition pretty (c : pcfg) (x : obj) : list byte :=
+  match x with
+  | OSym _ => atom_text c x
+  | OList [] => nil_text c
+  | _ => node_text c (ptree c x)
+  end.
+
+(* Printer.Append at level 0 *)
+Definition print (c : pcfg) (x : obj) : list byte := if p_pretty c then pretty c x else flat c x.
+
+(* ------------------------------------------------------------------------------------------ *)
+(* the reader: characters, arrays, objects denoted by C02's trees                               *)
+(* ------------------------------------------------------------------------------------------ *)
 (* runeMap: a Go map from the lower-cased name to the character *)
 Fixpoint beqb (a b : list byte) : bool :=
   match a, b with [], [] => true | x :: a', y :: b' => (x =? y)%N && beqb a' b' | _, _ => false end.
 Definition rune_table : list (list byte * N) :=
   [([98; 97; 99; 107; 115; 112; 97; 99; 101]%N, 8%N); ([110; 101; 119; 108; 105; 110; 101]%N, 10%N);
+   ([110; 117; 108]%N, 0%N); ([110; 117; 108; 108]%N, 0%N);
    ([112; 97; 103; 101]%N, 12%N); ([114; 101; 116; 117; 114; 110]%N, 13%N); ([114; 117; 98; 111; 117; 116]%N, 127%N);
    ([115; 112; 97; 99; 101]%N, 32%N); ([116; 97; 98]%N, 9%N)].
 Definition rune_map (name : list byte) : option N :=
   match find (fun e => beqb (fst e) name) rune_table with Some e => Some (snd e) | None => None end.
 Definition hex_value (b : byte) : N := nth (N.to_nat b) hex_table 46%N.
-(* pushChar: None = "'#\...' is not a valid character" *)
+(* pushChar: None = "'#\...' is not a valid character".  A character found by name is returned as it is (the NUL
+   character has the names Nul and Null: repo_fixes C03-12); in the other forms the code 0 means "not valid" *)
 Definition resolve_char (tok : list byte) : option obj :=
-  let c : N :=
-    match tok with
-    | [] => 0%N
-    | [b] => b
-    | b0 :: rest =>
-        match rune_map (map lower tok) with
-        | Some r => r
-        | None =>
+  match tok with
+  | [] => None
+  | [b] => if (b =? 0)%N then None else Some (OChr b)
+  | b0 :: rest =>
+      match rune_map (map lower tok) with
+      | Some r => Some (OChr r)
+      | None =>
+          let c : N :=
             if (b0 =? 117)%N || (b0 =? 85)%N then
               (if (7 <? length tok)%nat then 0%N
                else let rn := fold_left (fun a b => (a * 16 + hex_value b)%N) rest 0%N in
                     if (rn <=? 1114111)%N then rn else 0%N)
-            else fst (decode_rune tok)
-        end
-    end in
-  if (c =? 0)%N then None else Some (OChr c).
+            else fst (decode_rune tok) in
+          if (c =? 0)%N then None else Some (OChr c)
+      end
+  end.
 
 (* calcAndSet / setDim: the nested lists of #nA(...) must be rectangular; lists above the last axis *)
 Fixpoint arr_check (dims : list nat) (rows : list obj) : bool :=
